@@ -249,3 +249,23 @@ Theorem C02_mapor_kmn_merge_idem (H : list (oprec (mop oop))) :
   mohist_ok_kmn H -> km_once H -> kmn_addonly H -> forall (s : cmap orswot) (K : gset nat), moreach_kmn H s K -> mmerge orswot_valops s s = s.
 Proof. exact (mapor_merge_idem_kmn H). Qed.
 Print Assumptions C02_mapor_kmn_merge_idem.
+
+(** depth 3 without key removes (one more application of the functor of proofs/MapNKFunctor.v): merge laws on complete states *)
+From Crdt Require Import model.Orswot model.Map spec.System spec.OrswotSpec spec.OrswotSystem spec.MapSpec spec.MapSystem spec.MapOrswotSpec spec.MapMapOrswotSpec spec.MapMapOrswotNKSpec proofs.MapMapOrswotNK proofs.MapNKFunctor proofs.MapNKFunctorInst.
+Theorem C02_map3_nk_merge_comm (H : list (oprec (mop (mop (mop oop))))) :
+  m3hist_ok_nk H -> forall (s1 : cmap (cmap (cmap orswot))) (K1 : gset nat) (s2 : cmap (cmap (cmap orswot))) (K2 : gset nat),
+  m3reach_nk H s1 K1 -> m3reach_nk H s2 K2 -> mmerge (map_valops (map_valops orswot_valops)) s1 s2 = mmerge (map_valops (map_valops orswot_valops)) s2 s1.
+Proof. exact (map3_merge_comm_nk H). Qed.
+Print Assumptions C02_map3_nk_merge_comm.
+
+Theorem C02_map3_nk_merge_assoc (H : list (oprec (mop (mop (mop oop))))) :
+  m3hist_ok_nk H -> forall (s1 : cmap (cmap (cmap orswot))) (K1 : gset nat) (s2 : cmap (cmap (cmap orswot))) (K2 : gset nat) (s3 : cmap (cmap (cmap orswot))) (K3 : gset nat),
+  m3reach_nk H s1 K1 -> m3reach_nk H s2 K2 -> m3reach_nk H s3 K3 ->
+  mmerge (map_valops (map_valops orswot_valops)) (mmerge (map_valops (map_valops orswot_valops)) s1 s2) s3 = mmerge (map_valops (map_valops orswot_valops)) s1 (mmerge (map_valops (map_valops orswot_valops)) s2 s3).
+Proof. exact (map3_merge_assoc_nk H). Qed.
+Print Assumptions C02_map3_nk_merge_assoc.
+
+Theorem C02_map3_nk_merge_idem (H : list (oprec (mop (mop (mop oop))))) :
+  m3hist_ok_nk H -> forall (s : cmap (cmap (cmap orswot))) (K : gset nat), m3reach_nk H s K -> mmerge (map_valops (map_valops orswot_valops)) s s = s.
+Proof. exact (map3_merge_idem_nk H). Qed.
+Print Assumptions C02_map3_nk_merge_idem.
